@@ -199,7 +199,7 @@ def gen_dsep_op(rng: random.Random, target: list, m: MG, focus: list | None = No
             C = rng.sample(pool2, rng.randint(1, len(pool2)))
         else:
             C = rng.sample(rest, rng.randint(0, len(rest)))
-    c = rng.choice(("set", "frozenset", "list", "tuple", "none" if not C else "list", "dup-list"))
+    c = rng.choice(("set", "frozenset", "list", "tuple", "none" if not C else "list", "dup-list", "gen", "dictkeys"))
     spec = {"op": "are_d_separated", "t": target, "a": {"a": a, "b": b, "C": C, "c": c, "sym": rng.random() < 0.35}}
     if rng.random() < 0.04:
         # fault 'badarg': a conditioning node the graph does not have (documented to raise KeyError, possibly
@@ -397,9 +397,28 @@ def prepare_surgery(spec: dict, tgt: NxMixedGraph) -> Callable[[], Any]:
             cond = [mkvar(n) for n in a["C"]] + [mkvar(n) for n in a["C"][:1]]
         else:
             cond = _mkarg(a["C"], a["c"])
+        if a["c"] == "gen":
+            names = list(a["C"])
+            if a.get("sym"):
+                return lambda: (are_d_separated(tgt, va, vb, conditions=(mkvar(n) for n in names)),
+                                are_d_separated(tgt, vb, va, conditions=(mkvar(n) for n in names)))
+            return lambda: (are_d_separated(tgt, va, vb, conditions=(mkvar(n) for n in names)),)
+        if a["c"] == "dictkeys":
+            cond = {mkvar(n): None for n in a["C"]}.keys()
         if a.get("sym"):
-            return lambda: (are_d_separated(tgt, va, vb, conditions=cond), are_d_separated(tgt, vb, va, conditions=cond))
-        return lambda: (are_d_separated(tgt, va, vb, conditions=cond),)
+            thunk = lambda: (are_d_separated(tgt, va, vb, conditions=cond), are_d_separated(tgt, vb, va, conditions=cond))  # noqa: E731
+        else:
+            thunk = lambda: (are_d_separated(tgt, va, vb, conditions=cond),)  # noqa: E731
+
+        def post(val: Any) -> Any:
+            # the caller goes on using its own collection: a judgement that merely refers to it would change
+            if isinstance(cond, (list, set)):
+                cond.clear()
+                cond.extend([va]) if isinstance(cond, list) else cond.add(va)
+            return ser_result("dsep", val)
+
+        thunk.post = post  # type: ignore[attr-defined]
+        return thunk
     raise ValueError(op)
 
 
@@ -445,6 +464,7 @@ class CaseRun:
             "nontrivial": False,
         }
         self.eventlog: list = []
+        self.post_got: dict[tuple, tuple] = {}
         self.base_lines: dict[tuple, int] = {}
         self.bad_keys: set = set()
         self.result_digests: dict[str, str] = {}
@@ -672,6 +692,8 @@ class CaseRun:
                         inflight[c] = spec["op"]
                         status, val = s.run_op(k, thunk)
                         inflight.pop(c, None)
+                        if status == "ok" and hasattr(thunk, "post") and _type_ok("dsep", val):
+                            self.post_got[key] = (ser_result("dsep", val), thunk.post(val))
                         self.lines[key] = s.states[c].line
                         self.finish_op(pname, key, spec, e, status, val, results, values, base)
                         if status == "abort":
@@ -978,6 +1000,10 @@ class CaseRun:
                 return
         if len(got) == 2 and got[0] != got[1]:
             self.viol("O2", op, "asymmetric-in-a-b", pname, key=list(key), spec=spec, got=got)
+        pg = self.post_got.get(key)
+        if pg is not None and pg[0] != pg[1]:
+            self.viol("O3", op, "record-changes-when-caller-edits-its-collection", pname, key=list(key), spec=spec,
+                      before=pg[0], after=pg[1])
 
     def check_eq(self, pname: str, key: tuple, spec: dict, val: NxMixedGraph, rm: MG) -> None:
         """O6: the __eq__ everybody relies on agrees with the model."""
